@@ -45,7 +45,7 @@ ASSUMPTIONS = [
     "rotation axes are unit vectors; scale factors are non-zero",
     "float32 coordinates: results compared within 3e-5*(1+scale)",
 ]
-REQUIRED = ["small_unit_trees_compared", "transform_calls", "rotations_checked", "scales_checked", "translations_checked",
+REQUIRED = ["small_unit_trees_compared", "rotations_after_a_near_twin_under_coarse_print_options", "transform_calls", "rotations_checked", "scales_checked", "translations_checked",
             "centre_root_far", "centre_origin", "root_not_at_position_0", "instance_reused",
             "inverse_checked", "isometry_checked", "builders_checked", "composed_checked",
             "classmethod_checked", "translate_origin_checked", "singular_scalings", "tap_apply",
@@ -249,6 +249,13 @@ def _exec(ctx, case):
     fps = [contracts.fingerprint(tr) for tr in trees]
 
     if form == "instance":
+        if case.get("print_options") and t["kind"] == "rotate":
+            # ... and has just rotated about an almost identical axis by the same angle
+            n_ = np.array(t["n"], dtype=np.float64)
+            e_ = np.eye(3)[int(np.argmin(np.abs(n_)))]
+            near = n_ + 3e-4 * (e_ - (e_ @ n_) * n_)
+            make(dict(t, n=(near / np.linalg.norm(near)).tolist()), center)(trees[1])
+            ctx.count("rotations_after_a_near_twin_under_coarse_print_options")
         tf = make(t, center)
         outs = []
         for i, tr in enumerate(trees):  # the same instance, trees with different roots
@@ -402,6 +409,11 @@ def execute(ctx, case):
             warnings.simplefilter("ignore")
             if case.get("kind") == "builders":
                 check_builders(ctx, case)
+            elif case.get("print_options"):
+                # the caller prints its arrays with two decimals (np.set_printoptions): how arrays
+                # print is none of the transforms' business
+                with np.printoptions(precision=2, suppress=True, floatmode="fixed"):
+                    _exec(ctx, case)
             else:
                 _exec(ctx, case)
     except Exception as e:
@@ -479,6 +491,8 @@ def run(ctx):
             form = str(rng.choice(["instance", "instance", "instance", "classmethod", "composed",
                                    "origin"]))
             case = {"tree": rc, "tree2": rc2, "t": t, "center": center, "form": form}
+            if t["kind"] == "rotate" and rng.random() < 0.5:
+                case["print_options"], case["form"] = True, "instance"
             if rng.random() < 0.25:
                 case["reroot"] = int(rng.integers(0, 1000))
             if rng.random() < 0.25:
